@@ -120,6 +120,12 @@ def gen_paths(rng, rules, per_rule):
             paths.add(p)
             for _ in range(3):
                 paths.add(rng.choice(MUTS)(rng, p))
+        if rng.random() < 0.04 and any(s[0] == "var" and s[2][0] in ("int", "float") for s in r["segs"]):
+            # digit runs at and beyond what int() converts (sys.get_int_max_str_digits): still ordinary paths
+            big = rng.choice((R.INT_MAX_DIGITS, R.INT_MAX_DIGITS + 1))
+            parts = [s[1] if s[0] == "lit" else s[1] + ("1" * big + (".5" if s[2][0] == "float" else "") if s[2][0] in ("int", "float") else rng.choice(s[2][4])) + s[3]
+                     for s in r["segs"]]
+            paths.add("/" + "/".join(parts) + ("/" if r["branch"] else ""))
     for _ in range(6):
         d = rng.randrange(1, 5)
         p = "/" + "/".join(rng.choice(POOL) for _ in range(d))
